@@ -297,3 +297,115 @@ func genLocksReleased(sb *strings.Builder) error {
 	fmt.Fprintf(sb, "Definition lock_acquisitions : nat := %d.\nDefinition locks_released : bool := %v.\n\n", total, len(offenders) == 0)
 	return nil
 }
+
+func init() {
+	genSections = append(genSections, genLockDiscipline)
+}
+
+// lockedWholeAny: the method's body starts with `x.<f>.Lock()` (or RLock) immediately followed by
+// the matching deferred unlock: the whole operation is one critical section of mutex <f>.
+func lockedWholeAny(fn *ast.FuncDecl) (string, bool) {
+	if fn.Body == nil || len(fn.Body.List) < 2 {
+		return "", false
+	}
+	field := func(e ast.Expr, names ...string) (string, string) {
+		call, ok := e.(*ast.CallExpr)
+		if !ok || len(call.Args) != 0 {
+			return "", ""
+		}
+		sel, ok := call.Fun.(*ast.SelectorExpr)
+		if !ok {
+			return "", ""
+		}
+		for _, n := range names {
+			if sel.Sel.Name == n {
+				if inner, ok := sel.X.(*ast.SelectorExpr); ok {
+					return inner.Sel.Name, n
+				}
+			}
+		}
+		return "", ""
+	}
+	s0, ok := fn.Body.List[0].(*ast.ExprStmt)
+	if !ok {
+		return "", false
+	}
+	f, kind := field(s0.X, "Lock", "RLock")
+	if f == "" {
+		return "", false
+	}
+	s1, ok := fn.Body.List[1].(*ast.DeferStmt)
+	if !ok {
+		return "", false
+	}
+	f2, _ := field(s1.Call, map[string]string{"Lock": "Unlock", "RLock": "RUnlock"}[kind])
+	return f, f2 == f
+}
+
+// genLockDiscipline: the operations the models treat as atomic steps each run as one critical
+// section of their object's mutex (lock first, unlock deferred).  The lists are the methods that
+// have this shape on the tree the models were written against; a method that loses it (a narrowed
+// or dropped lock) makes the group's definition false.  New methods do not matter.
+func genLockDiscipline(sb *strings.Builder) error {
+	groups := []struct {
+		name, pkg string
+		methods   []string
+	}{
+		{"peering", "peering", []string{"Peering.AddLink", "Peering.RemoveLink", "Peering.GetLink", "Peering.GetLinkByLabel", "Peering.GetLinkByRemoteHost", "Peering.GetLinks", "Peering.LinkCnt", "Peering.IsStub",
+			"Peering.copyLinksWithLocking", "Peering.AddListener", "Peering.GetListener", "Peering.RemoveListener", "Peering.copyListenersWithLocking", "Peering.AddProtocol", "Peering.GetProtocol"}},
+		{"state", "state", []string{"EncryptionSession.In", "EncryptionSession.Out", "EncryptionSession.InitKeyClientStart", "EncryptionSession.InitKeyServer", "EncryptionSession.InitKeyClientComplete",
+			"EncryptionSession.DeriveSessionFromKX", "EncryptionSession.IsSetUp", "SequenceHandler.Check", "SequenceHandler.Ack", "SequenceHandler.Reset", "SequenceHandler.ResetIn", "SequenceHandler.RolloverRequired",
+			"TimeSequenceHandler.Check", "TimeSequenceHandler.Next", "Session.Signing", "Session.Encryption", "Session.SetEncryptionSession", "Session.inUse", "Session.killable", "State.GetSession", "State.cleanSessions"}},
+		{"router", "router", []string{"HelloPingHandler.Send", "HelloPingHandler.getActive", "HelloPingHandler.setActive", "HelloPingHandler.Clean", "PingPongHandler.getActive", "PingPongHandler.setActive",
+			"PingPongHandler.pluckActive", "PingPongHandler.Clean", "ErrorPingHandler.getOrCreateState", "ErrorPingHandler.Clean", "Router.getConnState", "Router.setConnState", "Router.markConnectionDst", "Router.markRouter",
+			"Router.GetPingHandler", "Router.RegisterPingHandler"}},
+		{"table", "m", []string{"RoutingTable.Clean", "RoutingTable.RemoveNextHop", "RoutingTable.RemoveDisconnected", "RoutingTable.LookupNearest", "RoutingTable.LookupNearestRoute", "RoutingTable.LookupPossiblePaths"}},
+		{"storage", "storage", []string{"MemStorage.GetRouter", "MemStorage.SaveRouter", "MemStorage.DeleteRouter", "MemStorage.QueryRouters", "MemStorage.Prune", "MemStorage.GetMapping", "MemStorage.SaveMapping",
+			"MemStorage.DeleteMapping", "MemStorage.QueryMappings"}},
+		{"mgr", "mgr", []string{"Group.IsDone", "Group.initGroupContext", "Group.stopGroupContext", "Task.Go", "Task.Delay", "Task.Repeat"}},
+	}
+	sb.WriteString("(* lock discipline: the listed operations are one critical section each (go/ast) *)\n")
+	for _, g := range groups {
+		files, _ := filepath.Glob(repoRoot() + "/" + g.pkg + "/*.go")
+		have := map[string]bool{}
+		for _, file := range files {
+			if strings.HasSuffix(file, "_test.go") || strings.HasSuffix(file, "verif_hooks.go") {
+				continue
+			}
+			fset := token.NewFileSet()
+			f, err := parser.ParseFile(fset, file, nil, 0)
+			if err != nil {
+				return err
+			}
+			for _, d := range f.Decls {
+				fd, ok := d.(*ast.FuncDecl)
+				if !ok || fd.Recv == nil || len(fd.Recv.List) == 0 {
+					continue
+				}
+				t := fd.Recv.List[0].Type
+				if st, ok := t.(*ast.StarExpr); ok {
+					t = st.X
+				}
+				id, ok := t.(*ast.Ident)
+				if !ok {
+					continue
+				}
+				if _, ok := lockedWholeAny(fd); ok {
+					have[id.Name+"."+fd.Name.Name] = true
+				}
+			}
+		}
+		var missing []string
+		for _, mth := range g.methods {
+			if !have[mth] {
+				missing = append(missing, mth)
+			}
+		}
+		for _, mth := range missing {
+			fmt.Fprintf(sb, "(* no longer one critical section: %s/%s *)\n", g.pkg, mth)
+		}
+		fmt.Fprintf(sb, "Definition lock_discipline_%s : bool := %v.  (* %d operations *)\n", g.name, len(missing) == 0, len(g.methods))
+	}
+	sb.WriteString("\n")
+	return nil
+}
